@@ -206,6 +206,10 @@ func internalMarshalAs(v any, slot reflect.Type, guard *cycleGuard) (*internalSt
 			ret.NilPointerLevel = ret.PointerNum
 			rt = rt.Elem()
 			for rt.Kind() == reflect.Ptr {
+				if rt.Name() != "" {
+					// a named pointer type below the nil pointer: only the depth would be recorded
+					return nil, fmt.Errorf("unknown type: %v", rt)
+				}
 				ret.PointerNum++
 				rt = rt.Elem()
 			}
@@ -272,6 +276,10 @@ func internalMarshalAs(v any, slot reflect.Type, guard *cycleGuard) (*internalSt
 		// map key类型
 		rkt := rt.Key()
 		for rkt.Kind() == reflect.Ptr {
+			if rkt.Name() != "" {
+				// a named pointer type (type Handle *Session) as key type: only its depth would be recorded
+				return nil, fmt.Errorf("unknown type: %v", rkt)
+			}
 			ret.MapKeyPointerNum++
 			rkt = rkt.Elem()
 		}
@@ -283,6 +291,9 @@ func internalMarshalAs(v any, slot reflect.Type, guard *cycleGuard) (*internalSt
 		// map value类型
 		rvt := rt.Elem()
 		for rvt.Kind() == reflect.Ptr {
+			if rvt.Name() != "" {
+				return nil, fmt.Errorf("unknown type: %v", rvt)
+			}
 			ret.MapValuePointerNum++
 			rvt = rvt.Elem()
 		}
@@ -345,6 +356,10 @@ func internalMarshalAs(v any, slot reflect.Type, guard *cycleGuard) (*internalSt
 		// 处理切片和数组类型
 		rvt := rt.Elem()
 		for rvt.Kind() == reflect.Ptr {
+			if rvt.Name() != "" {
+				// a named pointer type as element type: only its depth would be recorded
+				return nil, fmt.Errorf("unknown type: %v", rvt)
+			}
 			ret.SliceValuePointerNum++
 			rvt = rvt.Elem()
 		}
